@@ -281,8 +281,12 @@ def halfplane_point_at_infinity(tier, rng, rep):
         def body():
             fig, ax = plt.subplots(figsize=(3, 3))
             try:
-                dr = drawtools.HyperbolicDrawing(model="halfspace", fig=fig, ax=ax)
+                # default view, or a view the caller chose (wider and taller than the default: "off-screen" must follow the view in use)
+                view = {} if t % 2 == 0 else {"xlim": (-25.0, 25.0), "ylim": (-1.0, 40.0)}
+                dr = drawtools.HyperbolicDrawing(model="halfspace", fig=fig, ax=ax, **view)
                 top = ax.get_ylim()[1]
+                if view and abs(top - 40.0) > 1e-9:
+                    rep.fail("view_limits", f"ylim {ax.get_ylim()}", inp); return
                 vf = np.array([hs(x) for x in fin])
                 n0 = len(ax.patches)
                 dr.draw_polygon(h.Polygon(h.Point(V.copy())))
